@@ -211,7 +211,7 @@ func workC12(c *shardCtx) {
 		wf = 4
 	}
 	exprs := scenarioExprsW(c.thorough(), wf)
-	curated := 66 // the hand-written head of the list (literals in the AST, reordering functions)
+	curated := 77 // the hand-written head of the list (literals in the AST, reordering functions)
 	nThreads := 2
 	maxPre := 0
 	defer func() { c.res.Notes["max_preemptions_in_a_schedule"] = maxPre }()
